@@ -60,7 +60,7 @@ Section Text.
                  Parser.parse_n k cfg c u (Some cl) (pump_doc m t' None) = Parser.Ok o []).
   Proof.
     intros n cl o wcfg user Hwf Hfit Hnq Hex Hc1 Hc2. pose proof (wf_model_wfr u cl Hwf) as Hw.
-    exists (bflat (gobj c u ign n None o)). split; [apply (generate_ok c u ok ign n cl o Hwf Hfit)|].
+    exists (bflat (add_nil_g (cnil u o) (gobj c u ign n None o))). split; [apply (generate_ok c u ok ign n cl o Hwf Hfit)|].
     intros Hg. destruct (writer_sound_native wcfg user _ Hg) as [e [d [t [He [Hrun [Hres Hsays]]]]]].
     rewrite (expected_plain wcfg _ Hc1 Hc2) in He.
     rewrite (events_mean c u ok py_isspace ign n cl o Hw Hfit) in He. inversion He; subst e. clear He.
@@ -86,7 +86,7 @@ Section Text.
                  Parser.parse_n k cfg c u (Some cl) (pump_doc m t' None) = Parser.Ok o []).
   Proof.
     intros n cl o wcfg user Hwf Hfit Hnq Hex Hc1 Hc2. pose proof (wf_model_wfr u cl Hwf) as Hw.
-    exists (bflat (gobj c u ign n None o)). split; [apply (generate_ok c u ok ign n cl o Hwf Hfit)|].
+    exists (bflat (add_nil_g (cnil u o) (gobj c u ign n None o))). split; [apply (generate_ok c u ok ign n cl o Hwf Hfit)|].
     intros Hg Hd. destruct (writer_sound_lxml wcfg user _ Hg Hd) as [e [t [He [Hrun Hsays]]]].
     rewrite (expected_plain wcfg _ Hc1 Hc2) in He.
     rewrite (events_mean c u ok py_isspace ign n cl o Hw Hfit) in He. inversion He; subst e. clear He.
